@@ -26,12 +26,8 @@ from props.c18 import to_wire, from_wire
 logging.disable(logging.CRITICAL)
 
 ID = 'C20'
-N = {'quick': 360, 'thorough': 12000}
+N = {'quick': 800, 'thorough': 12000}
 LEAN_MODULES = ['GnpyProofs.Props.C20']
-# The model follows the code. /repo still has finding F10 (route entries naming a site promoted to ROADM); once the
-# proposed repair (grp-H report) is committed, set this to True: the model is then told the ROADM cities of the network
-# instead of the cities declared 'ROADM' in the workbook, and the `open:` line of known_findings.txt becomes `fixed:`.
-CODE_HAS_F10_REPAIR = os.environ.get('VERIF_C20_REPAIRED') == '1'
 THEOREMS = [f'Gnpy.Xls.{t}' for t in (
     'rejects_bad_rows', 'sanity_ok_iff', 'both_directions', 'link_west_defaults_to_east', 'link_west_cell_used',
     'endpoints_exist', 'roadm_site_shape', 'degree_ne_2_becomes_roadm', 'ila_fused_site_shape', 'ila_direction_rule',
@@ -855,12 +851,12 @@ def run_services(res, case, drv, path, net):
         data, derr = None, err_kind(e)
     trx = [n.uid for n in net.nodes() if isinstance(n, Transceiver)]
     cities = case['cities']
-    # corresp_names re-parses the workbook: only sites DECLARED 'ROADM' are known as ROADM cities there; every other city
-    # (ILA, FUSED, and sites promoted to ROADM by the degree correction) is resolved through amplifier names and the
-    # designed network, which the model does not do
+    # corresp_names knows as ROADM cities the sites declared 'ROADM' and (since d1cc94be) the sites the converter promoted
+    # to ROADM, i.e. every city with a 'roadm <city>' element; every other city (ILA, FUSED) is resolved through
+    # amplifier names and the designed network, which the model does not do
     declared = {n['city']: n.get('node_type') for n in tab['nodes']}
-    roadm_cities = [c for c in cities if declared.get(c) == 'ROADM' or
-                    (CODE_HAS_F10_REPAIR and f'roadm {c}' in {n.uid for n in net.nodes()})]
+    net_uids = {n.uid for n in net.nodes()}
+    roadm_cities = [c for c in cities if declared.get(c) == 'ROADM' or f'roadm {c}' in net_uids]
     ambiguous = [c for c in cities if c not in roadm_cities]
     ans = drv.ask('c20.services', rows=[{'kw': to_wire(kw), 'modes': m} for kw, m in rows], bidir=bidir, trx=trx,
                   roadm_cities=roadm_cities, roadm_edfa_uids=[n.uid for n in net.nodes() if isinstance(n, (Roadm, Edfa))],
@@ -896,7 +892,7 @@ def run_services(res, case, drv, path, net):
                         promoted = declared.get(c) != 'ROADM'
                         res.fail(f'route: request {r["request-id"]} lists the ROADM site {c!r} but the request does not contain '
                                  f"'roadm {c}' (route in the request: {got})",
-                                 cls='F10-route-entry-site-promoted-to-roadm' if promoted else 'unlisted')
+                                 cls='unlisted', promoted_site=promoted)
 
 
 def monitor_request(res, kw, impl, bidir):
